@@ -61,6 +61,8 @@ def _aggregate_consecutive(operations):
 
 
 def run(ctx):
+    from .C12 import nucleotide_text_rule
+    nucleotide_text_rule(ctx, "R4.nucleotide-text-normalised")
     # FASTA conversion stores every row through FastaFile.__setitem__ and reads the recorded line ranges back
     from .C12 import fasta_append_rules
     fasta_append_rules(ctx, "R4")
